@@ -81,13 +81,13 @@ def tlsAllowsManaged (c : Site) : Bool :=
   c.hasManager && c.email != b!"off" && !c.selfSigned && (!c.manual || c.onDemand)
 
 /-- declared as plain HTTP: scheme http or port 80 -/
-def declaredHTTP (scheme port : Bytes) : Bool := scheme == b!"http" || port == b!"80"
+def declaredHTTP (P : Ports) (scheme port : Bytes) : Bool := scheme == b!"http" || port == P.http
 
 /-- The site qualifies for managed HTTPS.  With on-demand TLS certificates are obtained during handshakes for
 whatever name is asked, so the name itself need not be a public DNS name — it must still not be local. -/
-def qualifies (c : Site) : Bool :=
+def qualifies (P : Ports) (c : Site) : Bool :=
   (if c.onDemand then !localHost c.host else publicDNSName c.host) &&
-  !localHost c.listen && !declaredHTTP c.scheme c.port && tlsAllowsManaged c
+  !localHost c.listen && !declaredHTTP P c.scheme c.port && tlsAllowsManaged c
 
 /-- Hosts the qualification claim is made for — what standardizeAddress and Address.Normalize leave in Addr.Host:
 lower case and without a port. -/
@@ -96,10 +96,10 @@ def hostInScope (h : Bytes) : Bool := h == toLower h && (splitHostPort h).isNone
 /-- `bind` values the claim is made for: empty, or a host without port (a value with a port cannot be listened on). -/
 def bindInScope (l : Bytes) : Bool := (splitHostPort l).isNone && (splitHostPort (toLower l)).isNone
 
-def qualifyVerdict (c : Site) (managed : Bool) : String :=
+def qualifyVerdict (P : Ports) (c : Site) (managed : Bool) : String :=
   if !hostInScope c.host || !bindInScope c.listen then "ok"
-  else if qualifies c && !managed then "bad:qualifies-but-unmanaged:the site qualifies for managed HTTPS but was not marked managed"
-  else if !qualifies c && managed then "bad:managed-but-unqualified:the site does not qualify for managed HTTPS but was marked managed"
+  else if qualifies P c && !managed then "bad:qualifies-but-unmanaged:the site qualifies for managed HTTPS but was not marked managed"
+  else if !qualifies P c && managed then "bad:managed-but-unqualified:the site does not qualify for managed HTTPS but was marked managed"
   else "ok"
 
 /-! ## reading an address text (spec level) -/
@@ -129,6 +129,42 @@ def readAddr (a : Bytes) : Bytes × Bytes × Bytes :=
   let port := if !port.isEmpty then port else if sr.1 == b!"http" then b!"80" else if sr.1 == b!"https" then b!"443" else port
   let scheme := if !sr.1.isEmpty then sr.1 else if port == b!"80" then b!"http" else if port == b!"443" then b!"https" else sr.1
   (scheme, hp.1, port)
+
+/-- `readAddr` with the configured HTTP / HTTPS ports: the service names and the scheme defaults mean those ports -/
+def readAddrP (P : Ports) (a : Bytes) : Bytes × Bytes × Bytes :=
+  let sr := splitScheme (toLower a)
+  let hp := splitPort (cutByte sr.2 47).1
+  let port := if hp.2 == b!"http" then P.http else if hp.2 == b!"https" then P.https else hp.2
+  let port := if !port.isEmpty then port else if sr.1 == b!"http" then P.http else if sr.1 == b!"https" then P.https else port
+  let scheme := if !sr.1.isEmpty then sr.1 else if port == P.http then b!"http" else if port == P.https then b!"https" else sr.1
+  (scheme, hp.1, port)
+
+/-- bytes of a host name as written in a site address: letters, digits, '-', '.', '_', '*' -/
+def nameByteS (c : UInt8) : Bool := isAlpha c || isDigit c || c == 45 || c == 46 || c == 95 || c == 42
+
+/-- the address text is exactly `[scheme://]host[:port]` with a scheme of letters, a host of name bytes (a name or an IPv4
+literal) and a port of digits: taken apart and put together again it is the same text -/
+def wellFormedAddr (a : Bytes) : Bool :=
+  let sr := splitScheme a
+  let hp := splitPort sr.2
+  let hasPort := hasByte sr.2 58
+  sr.1.all isAlpha && hp.1.all nameByteS && hp.2.all isDigit && (hasPort == !hp.2.isEmpty) &&
+  a == (if sr.1.isEmpty then [] else sr.1 ++ b!"://") ++ hp.1 ++ (if hasPort then 58 :: hp.2 else [])
+
+/-- The address-level part of the property ("declared with http:// or on the HTTP port"): what standardizeAddress + Normalize
+made of a well-formed address — `none` = refused because scheme and port violate convention — against the spec's own reading
+with the configured ports: a scheme-less address on the HTTP port IS an http address, on the HTTPS port an https address. -/
+def addrVerdict (P : Ports) (a : Bytes) (observed : Option (Bytes × Bytes × Bytes)) : String :=
+  if !wellFormedAddr a then "ok"
+  else
+    let (s, h, p) := readAddrP P a
+    let conflict := (s == b!"http" && p == P.https) || (s == b!"https" && p == P.http)
+    match observed with
+    | none => if conflict then "ok" else "bad:address-refused:a well-formed address without scheme/port conflict was refused"
+    | some o =>
+      if conflict then "bad:address-conflict-accepted:scheme and port violate convention but the address was accepted"
+      else if o == (s, h, p) then "ok"
+      else "bad:address-reading:scheme, host or port differ from what the address says (configured HTTP/HTTPS ports)"
 
 /-! ## which site an address text denotes (for the duplicate check of InspectServerBlocks) -/
 
@@ -186,56 +222,56 @@ structure ObservedRedirect where
   target : Option Bytes      -- port of the Location ("" = none written, i.e. the HTTPS default)
   deriving Repr, Inhabited
 
-def portSuffixOK (target sitePort : Bytes) : Bool :=
-  if sitePort == b!"443" then target.isEmpty else target == sitePort
+def portSuffixOK (P : Ports) (target sitePort : Bytes) : Bool :=
+  if sitePort == P.https then target.isEmpty else target == sitePort
 
 /-- site `o` is served over HTTPS and wants a redirect -/
 def obsWantsRedirect (o : Observed) : Bool := o.fEnabled && !o.declared.noRedirect
 
-def hasPlainSite (os : List Observed) (h : Bytes) : Bool := os.any fun o => o.fHost == h && o.fPort == b!"80"
+def hasPlainSite (P : Ports) (os : List Observed) (h : Bytes) : Bool := os.any fun o => o.fHost == h && o.fPort == P.http
 
 /-! the single violations, as tests on one observed site / one observed redirect site -/
 
 /-- P1 violated: in scope, and managed ≠ qualifies -/
-def offQualify (o : Observed) : Bool :=
-  hostInScope o.declared.host && bindInScope o.declared.listen && qualifies o.declared != o.managed
+def offQualify (P : Ports) (o : Observed) : Bool :=
+  hostInScope o.declared.host && bindInScope o.declared.listen && qualifies P o.declared != o.managed
 /-- P2a violated: marked managed but not served over TLS in the end -/
 def offManagedTLS (o : Observed) : Bool := o.managed && !o.fEnabled
 /-- P2b violated: declared as plain HTTP but TLS enabled in the end -/
-def offHTTP (o : Observed) : Bool := declaredHTTP o.declared.scheme o.declared.port && o.fEnabled
+def offHTTP (P : Ports) (o : Observed) : Bool := declaredHTTP P o.declared.scheme o.declared.port && o.fEnabled
 /-- P3a violated: a synthesised site that is not a plain site on the HTTP port -/
-def offPlain (r : ObservedRedirect) : Bool := r.fEnabled || r.fPort != b!"80"
+def offPlain (P : Ports) (r : ObservedRedirect) : Bool := r.fEnabled || r.fPort != P.http
 /-- the redirect of `r` goes to site `o`: same host, `o` served over HTTPS with no_redirect off, to `o`'s port -/
-def targetsSite (r : ObservedRedirect) (o : Observed) : Bool :=
-  o.fHost == r.fHost && obsWantsRedirect o && match r.target with | some t => portSuffixOK t o.fPort | none => false
+def targetsSite (P : Ports) (r : ObservedRedirect) (o : Observed) : Bool :=
+  o.fHost == r.fHost && obsWantsRedirect o && match r.target with | some t => portSuffixOK P t o.fPort | none => false
 /-- P4 violated for `o`: HTTPS site wanting a redirect, no plain site of its host on the HTTP port, no redirect site for its host -/
-def offCover (os : List Observed) (rs : List ObservedRedirect) (o : Observed) : Bool :=
-  obsWantsRedirect o && !hasPlainSite os o.fHost && !rs.any fun r => r.fHost == o.fHost
+def offCover (P : Ports) (os : List Observed) (rs : List ObservedRedirect) (o : Observed) : Bool :=
+  obsWantsRedirect o && !hasPlainSite P os o.fHost && !rs.any fun r => r.fHost == o.fHost
 
-def sitesVerdict (os : List Observed) (rs : List ObservedRedirect) : String :=
+def sitesVerdict (P : Ports) (os : List Observed) (rs : List ObservedRedirect) : String :=
   -- P1 managed exactly when qualifying
-  match os.find? offQualify with
+  match os.find? (offQualify P) with
   | some o => if o.managed then "bad:managed-but-unqualified:" else "bad:qualifies-but-unmanaged:"
   | none =>
   -- P2 managed sites are really served over TLS; plain-HTTP declarations never are
   if os.any offManagedTLS then "bad:managed-without-tls:"
-  else if os.any offHTTP then "bad:http-site-with-tls:"
+  else if os.any (offHTTP P) then "bad:http-site-with-tls:"
   -- P3 every synthesised site is a plain site on the HTTP port, for a host without plain site of its own, whose redirect
   --    goes to an HTTPS site of that host, to its port; at most one per host
-  else if rs.any offPlain then "bad:redirect-site-not-plain-http:"
-  else if rs.any (fun r => hasPlainSite os r.fHost) then "bad:redirect-shadows-plain-site:a redirect site was synthesised for a host that has its own site on the HTTP port"
-  else if rs.any (fun r => !os.any (targetsSite r))
+  else if rs.any (offPlain P) then "bad:redirect-site-not-plain-http:"
+  else if rs.any (fun r => hasPlainSite P os r.fHost) then "bad:redirect-shadows-plain-site:a redirect site was synthesised for a host that has its own site on the HTTP port"
+  else if rs.any (fun r => !os.any (targetsSite P r))
     then "bad:redirect-target-not-https-site:a synthesised redirect does not point at an HTTPS site of its host (right port, TLS on, no_redirect off)"
   else if !(rs.map (·.fHost)).Nodup then "bad:duplicate-redirect-site:"
   -- P4 every HTTPS site (no_redirect off) without a plain site of its host on the HTTP port is covered by a redirect site
-  else if os.any (offCover os rs) then "bad:redirect-missing:an HTTPS site without plaintext site on the HTTP port has no redirect site"
+  else if os.any (offCover P os rs) then "bad:redirect-missing:an HTTPS site without plaintext site on the HTTP port has no redirect site"
   else "ok"
 
 /-- what the model pipeline shows of a declared site `d` (the same fields the stream c15.sites reports) -/
-def observeSite (d : Site) : Observed :=
-  let m := markOne d
-  let e := enableOne m
-  let f := defaultPortOne (makeServersOne e)
+def observeSite (P : Ports) (d : Site) : Observed :=
+  let m := markOneP P d
+  let e := enableOneP P m
+  let f := defaultPortOne (makeServersOneP P e)
   { declared := d, managed := m.managed, ePort := e.port, fScheme := f.scheme, fHost := f.host, fPort := f.port, fEnabled := f.enabled }
 
 /-- what the model pipeline shows of a synthesised site -/
@@ -288,11 +324,11 @@ def sameURI (a b : Bytes) : Bool :=
 
 /-- The answer of a synthesised site to a request (Host header `hdr`, request target `target`), the site redirecting to
 HTTPS port `port` ("" or 443 = default): status 301 and Location = https://<same host>[:port]<same path and query>. -/
-def redirectVerdict (port hdr target : Bytes) (status : Nat) (loc : Bytes) : String :=
+def redirectVerdict (P : Ports) (port hdr target : Bytes) (status : Nat) (loc : Bytes) : String :=
   if !hostHeaderInScope hdr then "ok"
   else if status != 301 then "bad:redirect-status:not a permanent redirect"
   else
-    let pre := hexEscapeNonASCII (b!"https://" ++ hostOnly hdr ++ (if port.isEmpty || port == b!"443" then [] else b!":" ++ port))
+    let pre := hexEscapeNonASCII (b!"https://" ++ hostOnly hdr ++ (if port.isEmpty || port == P.https then [] else b!":" ++ port))
     if !hasPrefix loc pre then "bad:redirect-location:not https://<request host>[:port]…"
     else if target == b!"*" then (if loc.drop pre.length == b!"*" then "ok" else "bad:redirect-location:path")
     else if !sameURI (loc.drop pre.length) target then "bad:redirect-location:path or query differ from the request"
